@@ -103,6 +103,52 @@ def _is_worldlits(it):
     return it[0] == "f" and isinstance(it[1], tuple) and it[1][:1] == ("atom",) and isinstance(it[1][1], tuple) and it[1][1][:1] == ("worldlits",)
 
 
+def memo_audit(rep, ex: Explorer, rule: str, kinds=("text", "local-id")):
+    """What the ranking object remembers between calls (and pickles along) is stored under keys that identify what was
+    asked: a formula's *text* does not (pysmt abbreviates deep sub-terms: different formulas print alike) and a
+    process-local identity (node_id(), id(), hash()) means nothing after the object was loaded in another process.
+    Decided on the functions that take a formula: they are evaluated on a small concrete ranking and every store into /
+    lookup in a mapping is read off."""
+    import itertools
+
+    from ..harness import memo_keys
+
+    worlds = ["0", "1"]
+    summ = _summ({f"{PO}.symbolize_bitvec": _lits_summary_for(ex)})
+    n = 0
+    for fn in ("formula_rank", "filter_worlds_by_conditionalization", "compute_conditionalization", "conditionalize_existing_ranks", "conditional_acceptance"):
+        qual = f"{PO}.{fn}"
+        if ex.prog.functions.get(qual) is None:
+            continue
+        site = fn_label(ex.prog, qual)
+
+        def setup(I, fn=fn):
+            ranks = I.alloc(HDict(entries={w: LinV(F.lin_term(("r", w))) for w in worlds}))
+            o = I.alloc(HObj(CUS, {"ranks": ranks, "signature": I.alloc(HList([("one", Const("a"))])), "conditionals": Const(None),
+                                   "ranking_system": Const("custom"), "_metadata": I.alloc(HDict()), "_state": I.alloc(HDict())}))
+            arg = make_query() if fn == "conditional_acceptance" else FormulaV(PHI, "pysmt")
+            return [o, arg], {}
+
+        paths = ex.run(qual, setup, summaries=summ, key=f"memo-audit-{fn}")
+        n += 1
+        found = {}
+        for p in paths:
+            for kind, d, node in memo_keys(p):
+                if kind in kinds:
+                    found.setdefault(kind, (d, node))
+        for kind, (d, node) in found.items():
+            where = f"{site}:{node.lineno}" if node is not None else site
+            if kind == "text":
+                rep.violation(rule, where, "memo keyed by text", "what is remembered about a formula is kept under a key that identifies the formula (its text does not: pysmt abbreviates deep sub-terms, two different formulas share a text)",
+                              extracted=F.show_desc(d)[:120], required="the formula itself, or no memo", function=site)
+            else:
+                rep.violation(rule, where, "memo keyed by a process-local id", "what the object keeps between calls is pickled along: a key that is only an identity inside this process names another formula (or none) after loading",
+                              extracted=F.show_desc(d)[:120], required="a key that survives pickling, or state that is not pickled", function=site)
+        if not found:
+            rep.ok(rule, site, "memo keys", "no mapping is keyed by the text of a formula or by a process-local identity")
+    rep.floor(f"{rule} functions audited for memo keys", n, 4)
+
+
 def rank_min(rep, ex: Explorer):
     """RANK.min on formula_rank, decided by evaluation: the worlds of one and two atoms, the rank of a world a symbolic
     integer (rank_world summarised), the outcome of every satisfiability test free.  Every test must be asked over the
@@ -1438,6 +1484,19 @@ def impacts_keys(rep, ex: Explorer):
                     if written is not None and {k: desc(v) for k, v in written.items()} != cur:
                         rep.violation("IMPACTS.keys", site_e, "one layout", "both formats export the same mapping", extracted=f"{sorted(cur)} vs {sorted(written)}", required="equal", function=site_e)
                     written = dict(d.entries)
+    # the vector of a base without conditionals is the empty list: a vector like any other (only a missing one is refused)
+    def setup_empty(I):
+        o_ = _obj(I, CR, lambda I: {"conditionals": I.alloc(HDict()), "_impacts": I.alloc(HList([])), "ranking_system": Const("random_min_c_rep")})
+        return [o_, Const("m.json")], {"fmt": Const("json")}
+
+    for p in ex.run(exp, setup_empty, summaries=_summ(), key="impkeys-exp-empty"):
+        dumped = any(ev.kind == "persist.dump" for ev, Q in iter_events(p.events))
+        if p.outcome[0] == "raise" and getattr(p.outcome[1], "cls", "") in ("OSError", "TypeError", "PicklingError", "Exception") and dumped:
+            continue  # the file system / the serialiser failing is not the exporter refusing
+        if p.outcome[0] == "raise" and getattr(p.outcome[1], "cls", "") == "OSError":
+            continue
+        rep.check(p.outcome[0] == "return" and dumped, "IMPACTS.keys", site_e, "empty vector exported", "the empty impact vector (a base without conditionals) is exported like any other",
+                  extracted=f"{p.outcome[0]} {p.outcome[1]!r}"[:80] + ("" if dumped else ", nothing written"), required="written", function=site_e)
     if not written:
         raise AnalysisError(f"{site_e}: no dump observed")
     rep.check("impacts" in written and written["impacts"] == Sym("impacts"), "IMPACTS.keys", site_e, "vector exported", "the exported mapping carries the object's impact vector", extracted=f"keys {sorted(written)}; impacts = {written.get('impacts')!r}",
@@ -1782,6 +1841,10 @@ def format_agree(rep, ex: Explorer):
                     tried_fmts = {("json" if h.startswith("json") else "pickle") for h in tried}
                     for other in {"json", "pickle"} - tried_fmts:
                         unreliable.setdefault(other, f"{p.outcome[1].cls} of {p.outcome[1].origin[0]} is not handled")
+                # the file read as text before a pickle is looked for in it: binary data does not decode
+                if p.outcome[0] == "raise" and getattr(p.outcome[1], "cls", "") == "UnicodeDecodeError" and isinstance(getattr(p.outcome[1], "origin", None), tuple) \
+                        and str(p.outcome[1].origin[0]).endswith("read_text"):
+                    unreliable.setdefault("pickle", "the file is read as text first: a pickle does not decode (UnicodeDecodeError)")
             fallback = {f: why for f, why in unreliable.items() if f in accepts}
             accepts -= set(fallback)
             for fmt in ("json", "pickle"):
